@@ -19,6 +19,9 @@ OUT = os.path.join(VERIF, "out")
 ABNORMAL = ("panic", "crash", "hang")
 
 
+STOP = None  # set by the engine in worker processes: shared flag "enough violations recorded, stop"
+
+
 class HarnessError(Exception):
     """Something in the verification machinery (not the code under test) failed.
     Always mapped to INCONCLUSIVE, never to a violation."""
@@ -400,6 +403,12 @@ class Cli:
                     cpu = _cpu_seconds_tree(p.pid)
                     if last_cpu is None or cpu is None or cpu - last_cpu > 0.02 or _any_thread_runnable(p.pid):
                         last_cpu, last_change = cpu, now
+                    if STOP is not None and STOP.value:
+                        # enough violations were already recorded in this run: the verdict is decided, this case is not judged
+                        p.kill()
+                        so, se = p.communicate()
+                        obs["skipped"] = "run stopping after enough violations"
+                        break
                     if _rss_gb(p.pid) > RSS_LIMIT_GB:
                         p.kill()
                         so, se = p.communicate()
